@@ -995,7 +995,8 @@ def readGraph(input_file,
             G = networkx.read_gml((line.encode('ascii')
                                   for line in input_file), label='id')
             G = graph_class.normalize(G)
-        except (networkx.NetworkXError, TypeError, IndexError) as errmsg:
+        except (networkx.NetworkXError, TypeError, IndexError,
+                AttributeError, RecursionError) as errmsg:
             raise ValueError("[Parse error in GML input] {} ".format(errmsg))
         except UnicodeEncodeError as errmsg:
             raise ValueError(
